@@ -30,7 +30,7 @@ import (
 	"github.com/oasisprotocol/curve25519-voi/primitives/x25519"
 )
 
-const nl = field.VerifLimbCount
+const nl = field.VerifC04LimbCount
 
 var (
 	is64 = nl == 5
@@ -133,7 +133,7 @@ func nontrivialFE(v *big.Int) bool { return v.Cmp(one) > 0 }
 func checkFE(w *mc.W, name string, fe *field.Element, want *big.Int) bool {
 	ok := true
 	cas := map[string]string{"constant": name, "want": fmt.Sprintf("%x", want)}
-	l := field.VerifLimbs(fe)
+	l := field.VerifC04Limbs(fe)
 	got := new(big.Int).Mod(feInt(l), P)
 	if got.Cmp(want) != 0 {
 		ok = false
@@ -238,6 +238,58 @@ func run(c *mc.Ctx) {
 		sizes[s.name] = len(s.cases)
 		s.run(c)
 	}
+	// State between calls (T2/T3): the constants are live, mutable objects.  After every lookup flavour has been used
+	// with every index (negative ones included: conditional negation must happen on a copy) and after the public
+	// routines that consume the tables have run, everything is read and compared once more.
+	use := &space{name: "use-the-tables"}
+	use.add("use", true, func(w *mc.W) {
+		for _, b := range [][]byte{ref.LE32(big.NewInt(1)), ref.LE32(new(big.Int).Sub(ref.L, one)), bytes.Repeat([]byte{0x88}, 32), bytes.Repeat([]byte{0x77}, 32)} {
+			b[31] &= 0x7f
+			sc, err := scalar.NewFromBits(b)
+			if err != nil {
+				w.Fail("use/scalar", err.Error(), nil)
+				return
+			}
+			var p curve.EdwardsPoint
+			p.MulBasepoint(curve.ED25519_BASEPOINT_TABLE, sc)
+			p.DoubleScalarMulBasepointVartime(sc, curve.EIGHT_TORSION[1], sc)
+			p.TripleScalarMulBasepointVartime(sc, curve.ED25519_BASEPOINT_POINT, sc, curve.EIGHT_TORSION[3])
+			var r curve.RistrettoPoint
+			r.MulBasepoint(curve.RISTRETTO_BASEPOINT_TABLE, sc)
+			var u [64]byte
+			copy(u[:], b)
+			_, _ = r.SetUniformBytes(u[:])
+			var cr curve.CompressedRistretto
+			cr.SetRistrettoPoint(&r)
+			_ = p.IsSmallOrder()
+			_ = p.IsTorsionFree()
+			var fe field.Element
+			if _, err := fe.SetBytes(b); err == nil {
+				_ = elligator.EdwardsFlavor(&fe) // consumes the Elligator constants
+			}
+		}
+	})
+	use.run(c)
+	for _, b := range builders {
+		var s *space
+		func() {
+			defer func() {
+				if r := recover(); r != nil {
+					s = &space{name: "setup"}
+					s.add("setup", true, func(w *mc.W) {
+						w.Fail("panic/setup", fmt.Sprintf("the library panicked while its constants were being read again: %v", r), nil)
+					})
+				}
+			}()
+			s = b(c)
+		}()
+		s.name += "/after-use"
+		for k := range s.cases {
+			s.cases[k].class += "/after-use"
+		}
+		sizes[s.name] = len(s.cases)
+		s.run(c)
+	}
 	c.Rep.Extra["sub_space_sizes"] = sizes
 	c.Rep.Extra["backend"] = map[string]interface{}{"field_limbs": nl, "vector_backend": curve.VerifSupportsVector()}
 	if c.Rep.NViolations > 0 {
@@ -266,11 +318,11 @@ func run(c *mc.Ctx) {
 // fieldSources lists where each named field constant is read from.
 func fieldSources() []struct {
 	pkg, name string
-	get      func() (*field.Element, bool)
+	get       func() (*field.Element, bool)
 } {
 	type src = struct {
 		pkg, name string
-		get      func() (*field.Element, bool)
+		get       func() (*field.Element, bool)
 	}
 	fromReg := func(m map[string]interface{}, key string) func() (*field.Element, bool) {
 		return func() (*field.Element, bool) {
@@ -597,7 +649,7 @@ func basepointTables(c *mc.Ctx) *space {
 			name := fmt.Sprintf("newProjectiveNielsPointLookupTable(B).Lookup(%d)", x)
 			var v [4]*big.Int
 			for k := range e {
-				l := field.VerifLimbs(&e[k])
+				l := field.VerifC04Limbs(&e[k])
 				v[k] = new(big.Int).Mod(feInt(l), P)
 				for i, y := range l {
 					if y >= headroom(i) {
